@@ -7,7 +7,7 @@ own = [r for r in res if r["change"].startswith("mutants/")]
 seeded = [r for r in res if r["change"].startswith("seeded/")]
 out = []
 out.append(f"Produced by `./selftest` (quick tier, each change applied to a scratch copy of `/repo/src`; nothing is applied to `/repo`). "
-           f"{sum(r['result']=='caught' for r in res)} of {len(res)} (change, check) pairs end in exit 1 with a VIOLATION line; negative controls must stay quiet.\n")
+           f"{sum(r['result']=='caught' for r in res)} of {len([r for r in res if not (r['change'].startswith('benign/') or 'stricter' in r['change'])])} breaking (change, check) pairs end in exit 1 with a VIOLATION line; {sum(r['result'].startswith('quiet') for r in res)} of {len([r for r in res if r['change'].startswith('benign/') or 'stricter' in r['change']])} negative controls stay quiet.\n")
 out.append("### 9.1 Own deliberate changes (`mutants/`)\n")
 out.append("| property | change | result | clauses reported (count) |\n|---|---|---|---|")
 for r in sorted(own, key=lambda r: (r["check"], r["change"])):
@@ -23,7 +23,13 @@ for r in sorted(seeded, key=lambda r: (r["change"], r["check"])):
     if os.path.exists(mp):
         needs = json.load(open(mp)).get("needs_to_manifest", "")
     out.append(f"| {d} | {needs[:160]} | {r['check']} | {r['result']} | {r.get('clauses','').strip('{}')[:110]} |")
+benign = [r for r in res if r["change"].startswith("benign/")]
+out.append("\n### 9.2b Harmless changes produced by independent sub-agents (`benign/`, negative controls)\n")
+out.append("Each of these changes behaviour or structure in a way the property allows (see its notes.md); the pinned suite passes with it (`tools/verify_benign.sh`). A check that exits 1 here would be a false alarm.\n")
+out.append("| change | check | result |\n|---|---|---|")
+for r in sorted(benign, key=lambda r: (r["change"], r["check"])):
+    out.append(f"| {r['change'][len('benign/'):]} | {r['check']} | {r['result']} |")
 p = os.path.join(HERE, "DESIGN.md"); s = open(p).read()
 a = s.index("<!-- MATRIX-BEGIN -->") + len("<!-- MATRIX-BEGIN -->"); b = s.index("<!-- MATRIX-END -->")
 open(p, "w").write(s[:a] + "\n" + "\n".join(out) + "\n" + s[b:])
-print("matrix rows:", len(own), len(seeded))
+print("matrix rows:", len(own), len(seeded), len(benign))
